@@ -736,15 +736,16 @@ func c17Output(c *Ctx, run *ssa.Function) {
 	type routine struct {
 		fn     *ssa.Function
 		isList func(ssa.Value) bool
-		via    *ssa.Call // the call in the command (nil: the command itself)
+		via    *ssa.Call   // the call in the command (nil: the command itself)
+		chain  []*ssa.Call // the calls from the command down to fn
 	}
-	routines := []routine{{run, isCellLoad, nil}}
+	routines := []routine{{run, isCellLoad, nil, nil}}
 	for _, rt := range outputRoutines(c, run) {
 		if !isCellLoad(rt.arg) {
 			continue
 		}
 		p := rt.param
-		routines = append(routines, routine{rt.fn, func(v ssa.Value) bool { return v == ssa.Value(p) || ssau.ParamOf(v) == p }, rt.call})
+		routines = append(routines, routine{rt.fn, func(v ssa.Value) bool { return v == ssa.Value(p) || ssau.ParamOf(v) == p }, rt.call, rt.chain})
 	}
 	// print loops over the result list
 	loops := 0
@@ -916,6 +917,7 @@ func c17Output(c *Ctx, run *ssa.Function) {
 	cd := ssau.ControlDeps(run)
 	anchor := em.call.Block()
 	regionFn := run
+	dispatched := false
 	if em.rt.via != nil {
 		anchor = em.rt.via.Block()
 		// the routine may hold the whole format switch: then the json test and
@@ -925,6 +927,20 @@ func c17Output(c *Ctx, run *ssa.Function) {
 			if _, _, y, ok := ssau.CondOf(d.If().Cond); ok {
 				if s, isc := ssau.ConstString(y); isc && s == "json" {
 					cd, anchor, regionFn = rcd, em.call.Block(), em.rt.fn
+				}
+			}
+		}
+		// or a dispatcher in between: the json test guards the call of the
+		// routine that emits
+		for lvl := len(em.rt.chain) - 1; lvl >= 1 && regionFn == run; lvl-- {
+			site := em.rt.chain[lvl]
+			lcd := ssau.ControlDeps(site.Parent())
+			for _, d := range ssau.TransitiveControlDeps(lcd, site.Block()) {
+				if _, _, y, ok := ssau.CondOf(d.If().Cond); ok {
+					if s, isc := ssau.ConstString(y); isc && s == "json" {
+						cd, anchor, regionFn = lcd, site.Block(), site.Parent()
+						dispatched = true
+					}
 				}
 			}
 		}
@@ -961,7 +977,7 @@ func c17Output(c *Ctx, run *ssa.Function) {
 			}
 		}
 	}
-	if em.rt.via != nil && regionFn == run {
+	if em.rt.via != nil && (regionFn == run || dispatched) {
 		ssau.ForEachInstr(em.rt.fn, true, func(ins ssa.Instruction) {
 			if call, ok := ins.(*ssa.Call); ok && isPrintCall(call) && call != em.out {
 				bad++
@@ -1296,6 +1312,9 @@ func c17NoColorValue(v ssa.Value, d int) bool {
 		// true whenever the flag is set and whenever NO_COLOR is in the
 		// environment (it may have more reasons to)
 		h := x.Common().StaticCallee()
+		if h != nil && len(h.Blocks) > 0 && c17ReadsNoColorItself(h) {
+			return true
+		}
 		if h == nil || len(h.Blocks) == 0 || len(h.Params) != 1 || len(x.Common().Args) != 1 {
 			return false
 		}
@@ -1544,4 +1563,68 @@ func c17Colour(c *Ctx, run *ssa.Function) {
 		}
 		r.Check(flagSrc && envSrc && !other, "O-4", key+"/sources", c.P.Pos(g.Pos()), "no-color = --no-color flag or NO_COLOR present", fmt.Sprintf("no-color sources: flag=%v NO_COLOR=%v other-assignments=%v", flagSrc, envSrc, other))
 	}
+}
+
+// c17ReadsNoColorItself: h reads the --no-color flag and the NO_COLOR
+// variable itself and answers true whenever the flag is set or the variable is
+// present: every return is the constant true, the "present" result of the
+// lookup given only where the flag was found unset, or anything else given
+// only where the flag is unset and the variable absent.
+func c17ReadsNoColorItself(h *ssa.Function) bool {
+	var flag, env *ssa.Call
+	ssau.ForEachInstr(h, false, func(in ssa.Instruction) {
+		call, ok := in.(*ssa.Call)
+		if !ok {
+			return
+		}
+		switch n := ssau.CallName(call); {
+		case strings.HasSuffix(n, "FlagSet).GetBool"):
+			if s, _ := ssau.ConstString(call.Common().Args[1]); s == "no-color" {
+				flag = call
+			}
+		case n == "os.LookupEnv":
+			if s, _ := ssau.ConstString(call.Common().Args[0]); s == "NO_COLOR" {
+				env = call
+			}
+		}
+	})
+	if flag == nil || env == nil {
+		return false
+	}
+	is := func(v ssa.Value, call *ssa.Call, idx int) bool {
+		ex, ok := ssau.ResolveCell(v).(*ssa.Extract)
+		return ok && ex.Tuple == ssa.Value(call) && ex.Index == idx
+	}
+	flagFalse, envFalse := map[[2]int]bool{}, map[[2]int]bool{}
+	for _, iff := range ssau.Ifs(h) {
+		cond, neg := iff.Cond, 0
+		if u, isU := cond.(*ssa.UnOp); isU && u.Op == token.NOT {
+			cond, neg = u.X, 1
+		}
+		if is(cond, flag, 0) {
+			flagFalse[[2]int{iff.Block().Index, 1 - neg}] = true
+		}
+		if is(cond, env, 1) {
+			envFalse[[2]int{iff.Block().Index, 1 - neg}] = true
+		}
+	}
+	if len(flagFalse) == 0 {
+		return false
+	}
+	for _, ret := range ssau.ReturnsOf(h) {
+		v := ssau.ResultValue(ret, 0)
+		if ssau.IsConstBool(v, true) {
+			continue
+		}
+		if ssau.ReachableAvoidingEdges(h, ret.Block(), flagFalse) {
+			return false // can answer something else with the flag set
+		}
+		if is(v, env, 1) {
+			continue // "present", with the flag unset
+		}
+		if len(envFalse) == 0 || ssau.ReachableAvoidingEdges(h, ret.Block(), envFalse) {
+			return false
+		}
+	}
+	return true
 }
